@@ -165,6 +165,10 @@ def startupStep (st : StartupDrvSt) (op : String) (a : KV) : StartupDrvSt × Str
     | some f =>
       let o := resetD f.cfg f.regs
       (st.setOut f.id o, "ok " ++ suStored o.abs.store)
+  | "su.flaky" =>
+    -- a transient failure of the 2nd (or later) look-up of the stored PWM map within ONE start: the start-up of the code
+    -- that exists looks the map up once per start, so nothing changes (generators only use at >= 2)
+    (st, "ok")
   | "su.delmap" =>
     match st.find? (a.str "fan" "f1") with
     | none => (st, "bad-op")
